@@ -74,19 +74,11 @@ pub fn expand_type_support(input: &DeriveInput) -> Result<TokenStream> {
                     ]);
                     // XTypes 7.3.1.2.1.1: the member id is the hash masked to the 28 bits of a member id
                     syn::parse_str(&(member_hash_int & 0x0FFF_FFFF).to_string())?
+                } else if let Some(provided_id) = struct_member_attributes.id {
+                    // An explicit id is part of the type whatever its extensibility
+                    provided_id
                 } else {
-                    match r#struct.extensibility {
-                        Extensibility::Final | Extensibility::Appendable => {
-                            syn::parse_str(&member_index.to_string())
-                        }
-                        Extensibility::Mutable => {
-                            if let Some(provided_id) = struct_member_attributes.id {
-                                Ok(provided_id)
-                            } else {
-                                syn::parse_str(&next_auto_id.to_string())
-                            }
-                        }
-                    }?
+                    syn::parse_str(&next_auto_id.to_string())?
                 };
 
                 if !struct_member_attributes.hashid {
